@@ -305,6 +305,7 @@ class Ref:
 
 # ---------------------------------------------------------------------------- observation parsing
 
+SENDS_SEEN = []     # (dst, fn, rssi, toa256, nope) send attempts of the op parsed last (WORLD_TRACE=1)
 CALLS_SEEN = []     # (dst, src, fn) routing decisions of the op parsed last (WORLD_TRACE=1)
 
 
@@ -312,6 +313,7 @@ def parse_obs(obs):
     """one op's observation string -> (datagrams [(lport, raddr, rport, bytes)], stale, exc)"""
     dg, stale, exc = [], 0, None
     CALLS_SEEN.clear()
+    SENDS_SEEN.clear()
     if obs.strip() == ".":
         return dg, stale, exc
     for item in obs.strip().split(","):
@@ -319,6 +321,10 @@ def parse_obs(obs):
             stale = int(item[6:])
         elif item.startswith("call:"):
             CALLS_SEEN.append(tuple(int(v) for v in item.split(":")[1:]))
+        elif item.startswith("send:"):
+            f = item.split(":")[1:]
+            SENDS_SEEN.append((int(f[0]), int(f[1]), None if f[2] == "None" else int(f[2]),
+                               None if f[3] == "None" else int(f[3]), f[4] == "1"))
         elif item.startswith("EXC:"):
             exc = item[4:]
         else:
@@ -388,17 +394,27 @@ def judge_line(line, answer, train_seqs, props, traced=False):
     if len(obs) != len(ops):
         return [{"prop": "harness", "what": "observation count mismatch"}]
 
+    allout = []
+
     def bad(prop, i, what, expected=None, observed=None):
-        if prop in props:
-            out.append({"prop": prop, "op_index": i, "op": ops[i][:120], "what": what,
-                        "expected": expected, "observed": observed})
+        for p in ((prop,) if isinstance(prop, str) else prop):
+            allout.append({"prop": p, "op_index": i, "op": ops[min(i, len(ops) - 1)][:120], "what": what,
+                           "expected": expected, "observed": observed})
+
+    def result():
+        # first-divergence policy: once the real code and the reference disagree, later differences are
+        # consequences; only the discrepancies at the earliest operation are reported, with their own tags
+        if not allout:
+            return out
+        first = min(d["op_index"] for d in allout)
+        return out + [d for d in allout if d["op_index"] == first and d["prop"] in props]
 
     for i, (op, ob) in enumerate(zip(ops, obs)):
         t = op.split()
         dg, stale, exc = parse_obs(ob)
         if exc is not None:
             bad("C14", i, "exception escaped", None, exc)
-            return out
+            return result()
         try:
             if t[0] == "C":
                 j, sp = int(t[1]), int(t[2])
@@ -427,10 +443,8 @@ def judge_line(line, answer, train_seqs, props, traced=False):
                     bad("C05", i, "status is not an integer", None, f[0])
                     continue
                 if st != e["status"]:
-                    p = "C12" if e["verb"] in ("POWERON", "POWEROFF") else "C18" if e["verb"] in ("FAKE_DROP", "RFMUTE") else "C05"
+                    p = ("C12", "C05") if e["verb"] in ("POWERON", "POWEROFF") else ("C18", "C05") if e["verb"] in ("FAKE_DROP", "RFMUTE") else "C05"
                     bad(p, i, "status", e["status"], st)
-                    if p != "C05":
-                        bad("C05", i, "status", e["status"], st)
                 results = f[1 + len(want_args):]
                 if e["res"] is None:
                     if results:
@@ -463,32 +477,34 @@ def judge_line(line, answer, train_seqs, props, traced=False):
                     bad("C03", i, "datagram without a tick", 0, len(dg))
         except NotClean as e:
             stat("not-clean:%s" % e)
-            return out       # the rest of the history is outside the reference
+            return result()  # the rest of the history is outside the reference
+        if allout:
+            return result()
     # final state (C12): running flags, clock
     try:
         st = parts[2].split(" # ")
         for k, x in enumerate(ref.t):
             f = st[k].split()
             if f[0] != "R%d" % int(x.running):
-                bad("C12", len(ops) - 1, "running flag of transceiver %d at the end" % k, int(x.running), f[0])
+                bad("C12", len(ops), "running flag of transceiver %d at the end" % k, int(x.running), f[0])
             if not x.running and (f[3] != "N" and x.fh is None):
-                bad("C12", len(ops) - 1, "hopping configuration kept after power-off (trx %d)" % k, "N", f[3])
+                bad("C12", len(ops), "hopping configuration kept after power-off (trx %d)" % k, "N", f[3])
             q = f[-1][1:]
             nq = 0 if q == "-" else len(q.split("/"))
             if nq != len(x.queue):
-                bad("C03", len(ops) - 1, "queue length of transceiver %d at the end" % k, len(x.queue), nq)
+                bad("C03", len(ops), "queue length of transceiver %d at the end" % k, len(x.queue), nq)
         clk = st[len(ref.t)].split()
         if clk[0] != "clk%d" % int(ref.clk_run):
-            bad("C12", len(ops) - 1, "clock generator running", int(ref.clk_run), clk[0])
+            bad("C12", len(ops), "clock generator running", int(ref.clk_run), clk[0])
         pp = parts[1].split(",")
         for k, x in enumerate(ref.t):
             want = "%d>%d/%d>%d/%s" % (x.ctrl, x.ctrl + 100, x.data, x.data + 100,
                                        "%d>%d" % (x.port, x.port + 100) if x.clock else "N")
             if pp[k] != want:
-                bad("C12", len(ops) - 1, "port plan of transceiver %d" % k, want, pp[k])
+                bad("C12", len(ops), "port plan of transceiver %d" % k, want, pp[k])
     except (IndexError, ValueError):
         out.append({"prop": "harness", "what": "state dump not understood"})
-    return out
+    return result()
 
 
 def _judge_tick(ref, i, exp, est, dg, stale, bad):
@@ -520,10 +536,20 @@ def _judge_tick(ref, i, exp, est, dg, stale, bad):
                 and (parse_rx(d[3]) or {}).get("fn") == e["fn"] and (parse_rx(d[3]) or {}).get("tn") == e["tn"]]
         if not cand:
             if not e.get("optional"):
-                # routed (see calls) but nothing arrived: metadata out of range / encoding refused
-                p = "C18" if e["nope"] else ("C10" if traced else "C02")
+                att = [s_ for s_ in SENDS_SEEN if s_[0] == e["dst"] and s_[1] == e["fn"]]
+                if e["nope"]:
+                    p = "C18"
+                elif not traced:
+                    p = ("C02", "C10")
+                elif att and not att[0][4] and att[0][2] is not None and att[0][3] is not None and \
+                        not (-120 <= att[0][2] <= -47 and -32768 <= att[0][3] <= 32767):
+                    p = "C10"     # the burst was routed and handed on, but with metadata outside the protocol ranges
+                elif att and not att[0][4]:
+                    p = ("C13", "C10")   # in-range message handed to the encoder but nothing emitted
+                else:
+                    p = ("C02", "C18")   # routed, but suppressed / never handed on although no drop or mute applies
                 bad(p, i, "expected datagram missing (src trx %d -> dst trx %d)" % (e["src"], e["dst"]),
-                    {k: e[k] for k in ("lport", "fn", "tn", "nope", "rssi", "toa")}, None)
+                    {k: e[k] for k in ("lport", "fn", "tn", "nope", "rssi", "toa")}, {"send_attempts": att[:2]})
             continue
         n = cand[0]
         used[n] = True
@@ -539,7 +565,7 @@ def _judge_tick(ref, i, exp, est, dg, stale, bad):
                 bad("C18", i, "NOPE indication noise values", (-110, 0, -30), (m["rssi"], m["toa"], m["ci"]))
             continue
         if m.get("nope"):
-            bad("C18", i, "burst suppressed although no drop/mute applies", "burst", "NOPE")
+            bad(("C18", "C02"), i, "burst suppressed (NOPE delivered) although no drop/mute applies", "burst", "NOPE")
             continue
         if m["soft"] != e["soft"]:
             bad("C10", i, "soft bits", "127/-127 per hard bit (%d)" % len(e["soft"]), "differs (%d)" % len(m["soft"] or []))
